@@ -55,6 +55,7 @@ static struct {
 	int note_done[NNOTE];    /* an nsync_note_notify on the note has RETURNED */
 	int note1_child;         /* note[1] is a child of note[0] */
 	int qepi;                /* Mode B: every epilogue first waits for quiescence and checks that every sleeper sleeps legitimately */
+	int vsh[NV];             /* shadow of v[] kept with relaxed atomics (no happens-before edges), read by oracles that run outside the mutex: v[] itself stays PLAIN for ThreadSanitizer */
 	int wait_var[RT_MAXT];   /* index of the variable a thread's current nsync_mu_wait depends on, -1 = none, -2 = NULL condition */
 	int cv_foreign[NCV];   /* this round, waits on cv[j] pass harness lock/unlock callbacks (a foreign lock to nsync) */
 } S;
@@ -141,7 +142,7 @@ static int do_act (int tid, const struct act *a, int held, int writer) {
 	switch (a->kind) {
 	case A_SETV:
 		if (held && writer) {
-			if (a->val || !S.final_) { S.v[a->k] = a->val; changed = 1; }
+			if (a->val || !S.final_) { S.v[a->k] = a->val; sc_set (&S.vsh[a->k], a->val); changed = 1; }
 		}
 		break;
 	case A_POINT: rt_point ("section"); break;
@@ -278,7 +279,7 @@ static void epilogue (void) {
 	RT_OP ("nsync_mu_lock", nsync_mu_lock (&S.mu));
 	enter (1, "nsync_mu_lock");
 	S.final_ = 1;
-	for (i = 0; i < NV; i++) S.v[i] = 1;
+	for (i = 0; i < NV; i++) { S.v[i] = 1; sc_set (&S.vsh[i], 1); }
 	leave (1);
 	RT_OP ("nsync_mu_unlock", nsync_mu_unlock (&S.mu));
 	for (i = 0; i < NCV; i++) RT_OP ("nsync_cv_broadcast", nsync_cv_broadcast (&S.cv[i]));
@@ -337,7 +338,7 @@ static void legit_sleep_check (const char *when) {
 			rt_violation ("asleep-on-free-mutex", rt_thread_op (t), "%s: nothing can run, the mutex word %#x shows no holder, yet thread %d is asleep in %s waiting for it", when, word, t, rt_thread_op (t));
 		if (mu_free && !strcmp (at, "nsync_mu_wait_with_deadline")) {
 			int k = sc_get (&S.wait_var[t]);
-			if (k >= 0 && S.v[k] != 0)
+			if (k >= 0 && sc_get (&S.vsh[k]) != 0)
 				rt_violation ("cond-true-asleep", rt_thread_op (t), "%s: nothing can run, the mutex is free (word %#x) and v[%d] is true, yet thread %d is still asleep in %s on that condition", when, word, k, t, rt_thread_op (t));
 		}
 		n = sc_get (&S.wait_note[t]);
@@ -395,7 +396,7 @@ static int setup (uint64_t seed) {
 	S.note[1] = !S.note1_child ? nsync_note_new (NULL, rt_deadline_in (pick_dl ())) : nsync_note_new (S.note[0], nsync_time_no_deadline);
 	for (i = 0; i < NNOTE; i++) S.note_done[i] = 0;
 	S.ctr = nsync_counter_new (1);
-	for (i = 0; i < NV; i++) S.v[i] = (int) rt_rand_n (2);
+	for (i = 0; i < NV; i++) { S.v[i] = (int) rt_rand_n (2); S.vsh[i] = S.v[i]; }
 	for (i = 0; i < NCV; i++) S.cv_foreign[i] = (rt_rand_n (4) == 0);
 	for (i = 0; i < RT_MAXT; i++) { S.wait_var[i] = -1; S.wait_note[i] = 0; }
 	S.qepi = rt_mode_b () && rt_rand_n (2);
